@@ -1,7 +1,7 @@
 import json, os, glob
 props = {json.loads(l)['id']: json.loads(l) for l in open('/verif/properties.jsonl')}
 avoid = {}
-for d in sorted(glob.glob('/verif/seeded/C*-[a-g]')):
+for d in sorted(glob.glob('/verif/seeded/C*-[a-h]')):
     pid = os.path.basename(d).split('-')[0]
     m = json.load(open(d + '/meta.json'))
     s = (m.get('summary') or '').replace('\n', ' ')
@@ -78,6 +78,7 @@ When finished, leave the worktree with your change APPLIED to the working tree (
 If after honest effort you cannot find such a change, say so plainly rather than delivering a weak or broad one.
 """
 for pid, p in props.items():
+    if pid not in ('C03','C05','C06','C11','C12','C14','C15','C16'): continue
     wt = f"/tmp/wt-{pid}-h"
     pt = f"**{pid} - {p['title']}**\n\n{p['statement']}\n\nQuantifier: {p['quantifier']['text']}\n\nWhere it lives (anchors): " + json.dumps(p['anchors'], indent=1)
     av = "\n".join(f"* {a} ..." for a in avoid.get(pid, []))
